@@ -98,6 +98,8 @@ pub struct FragInfo {
     pub deleted: Vec<u32>,
     pub row_ids: Option<Vec<u64>>,
     pub n_files: usize,
+    /// data file paths (relative, as stored)
+    pub files: Vec<String>,
 }
 
 #[derive(Clone, Debug, Default)]
@@ -233,6 +235,8 @@ async fn data_file_rows(ds: &Dataset, frag: &Fragment, idx: usize, path: &str) -
 pub struct View {
     /// pre-order (field id, name)
     pub schema_fields: Vec<(i32, String)>,
+    /// field ids declared NOT NULL
+    pub non_nullable: Vec<i32>,
     pub frags: Vec<FragView>,
     pub max_fragment_id: Option<u32>,
     pub next_row_id: u64,
@@ -471,6 +475,33 @@ pub fn check_view(v: &View) -> Vec<(String, String)> {
     out
 }
 
+/// Run a Lance call, turning a panic into an error string prefixed with "panic: ".
+pub async fn guard<T, F>(fut: F) -> Result<T, String>
+where
+    F: std::future::Future<Output = Result<T, String>>,
+{
+    use futures::FutureExt;
+    match std::panic::AssertUnwindSafe(fut).catch_unwind().await {
+        Ok(r) => r,
+        Err(p) => {
+            let msg = p
+                .downcast_ref::<String>()
+                .cloned()
+                .or_else(|| p.downcast_ref::<&str>().map(|s| s.to_string()))
+                .unwrap_or_else(|| "panic".into());
+            Err(format!("panic: {msg}"))
+        }
+    }
+}
+
+fn sig_of(base: &str, err: &str) -> String {
+    if err.starts_with("panic: ") {
+        format!("{base}-panic")
+    } else {
+        format!("{base}-error")
+    }
+}
+
 /// Walk one version. `deep`: also open every data file, run validate() and a full scan.
 pub async fn walk(ds: &Dataset, raw: &RawStore, deep: bool) -> WalkOut {
     let (view, mut out) = observe(ds, raw, deep).await;
@@ -478,10 +509,10 @@ pub async fn walk(ds: &Dataset, raw: &RawStore, deep: bool) -> WalkOut {
     out.problems.append(&mut p);
     if deep {
         let live_total = out.live_rows;
-        if let Err(e) = ds.validate().await {
-            out.problems.push(("validate-error".into(), e.to_string()));
+        if let Err(e) = guard(async { ds.validate().await.map_err(|e| e.to_string()) }).await {
+            out.problems.push((sig_of("validate", &e), e));
         }
-        match scan_count_with_rowid(ds).await {
+        match guard(scan_count_with_rowid(ds)).await {
             Ok(n) => {
                 if n != live_total {
                     out.problems.push((
@@ -490,9 +521,9 @@ pub async fn walk(ds: &Dataset, raw: &RawStore, deep: bool) -> WalkOut {
                     ));
                 }
             }
-            Err(e) => out.problems.push(("full-scan-with-rowid-error".into(), e)),
+            Err(e) => out.problems.push((sig_of("full-scan-with-rowid", &e), e)),
         }
-        match scan_count(ds).await {
+        match guard(scan_count(ds)).await {
             Ok(n) => {
                 if n != live_total {
                     out.problems.push((
@@ -501,9 +532,9 @@ pub async fn walk(ds: &Dataset, raw: &RawStore, deep: bool) -> WalkOut {
                     ));
                 }
             }
-            Err(e) => out.problems.push(("full-scan-error".into(), e)),
+            Err(e) => out.problems.push((sig_of("full-scan", &e), e)),
         }
-        match ds.count_rows(None).await {
+        match guard(async { ds.count_rows(None).await.map_err(|e| e.to_string()) }).await {
             Ok(n) => {
                 if n as u64 != live_total {
                     out.problems.push((
@@ -512,7 +543,7 @@ pub async fn walk(ds: &Dataset, raw: &RawStore, deep: bool) -> WalkOut {
                     ));
                 }
             }
-            Err(e) => out.problems.push(("count_rows-error".into(), e.to_string())),
+            Err(e) => out.problems.push((sig_of("count_rows", &e), e)),
         }
     }
     out.view = Some(view);
@@ -534,6 +565,7 @@ pub async fn observe(ds: &Dataset, raw: &RawStore, deep: bool) -> (View, WalkOut
         pre_order(f, &mut fields);
     }
     view.schema_fields = fields.iter().map(|f| (f.id, f.name.clone())).collect();
+    view.non_nullable = fields.iter().filter(|f| !f.nullable).map(|f| f.id).collect();
     let mut problems: Vec<(String, String)> = vec![];
     let mut bad = |sig: &str, detail: String| problems.push((sig.to_string(), detail));
     let mut refs = RefSet {
@@ -650,11 +682,12 @@ pub async fn observe(ds: &Dataset, raw: &RawStore, deep: bool) -> (View, WalkOut
             deleted,
             row_ids: fv.row_ids.clone(),
             n_files: frag.files.len(),
+            files: frag.files.iter().map(|f| f.path.clone()).collect(),
         });
         view.frags.push(fv);
     }
-    match ds.load_indices().await {
-        Err(e) => bad("load_indices-error", e.to_string()),
+    match guard(async { ds.load_indices().await.map_err(|e| e.to_string()) }).await {
+        Err(e) => bad(&sig_of("load_indices", &e), e),
         Ok(idx) => {
             for i in idx.iter() {
                 out.index_segments += 1;
